@@ -1,7 +1,8 @@
 (* C20 property theorems: files written by the tool preserve every source event. *)
 From HTA.lib Require Import Base.
 From HTA.model Require Import C08_Model C20_Model.
-From HTA.proof Require Import C20_Proofs.
+From HTA.gen Require Import OverlayRules_gen.
+From HTA.proof Require Import C20_Proofs C20_RulesTie.
 Open Scope Z_scope.
 
 (* (1) the trace with counters: the source events come first, unchanged and in order; everything after them is the counter events *)
@@ -43,6 +44,15 @@ Theorem C20_drawn_edges : forall oc sa zw cp all e,
   (if sa && negb oc then In e all /\ (zw = true \/ zero_launch e = false) else In e cp).
 Proof. exact drawn_spec. Qed.
 Print Assumptions C20_drawn_edges.
+
+(* ... and that rule is the one regenerated from the source on every run: _is_zero_weight_launch_edge, the override of show_all_edges
+   by only_show_critical_events, the edge selection *)
+Theorem C20_drawn_edges_follow_source : forall oc sa zw cp all e,
+  zero_launch e = zero_launch_gen (g_ty e) (g_w e) /\
+  drawn_edges oc sa zw cp all =
+    (if draws_all_gen oc sa then filter (fun e => drawn_member_gen zw (g_ty e) (g_w e)) all else cp).
+Proof. exact overlay_rules_are_generated. Qed.
+Print Assumptions C20_drawn_edges_follow_source.
 
 (* one pair of flow events per drawn edge: the k-th edge yields the events 2k (start) and 2k+1 (end), both with id k, on the
    process and thread of the source events at the edge's two end points; there are no other flow events *)
